@@ -561,8 +561,30 @@ func (self *Analyzer) TypeCheck(got ast.Type, expected ast.Type, options TypeChe
 				}
 			}
 		case ast.VarArgsFunctionTypeParamKindIdentifierKind:
-			// TODO: ...
-			panic("TODO: implement or remove this")
+			expectedVarParams := expectedFn.Params.(ast.VarArgsFunctionTypeParamKindIdentifier)
+			gotVarParams := gotFn.Params.(ast.VarArgsFunctionTypeParamKindIdentifier)
+
+			if len(expectedVarParams.ParamTypes) != len(gotVarParams.ParamTypes) {
+				return newCompatibilityErr(
+					diagnostic.Diagnostic{
+						Level:   diagnostic.DiagnosticLevelError,
+						Message: fmt.Sprintf("Expected %d fixed parameter(s), got %d", len(expectedVarParams.ParamTypes), len(gotVarParams.ParamTypes)),
+						Notes:   []string{},
+						Span:    gotFn.ParamsSpan,
+					},
+					nil,
+				)
+			}
+
+			for idx, expectedParamType := range expectedVarParams.ParamTypes {
+				if err := self.TypeCheck(gotVarParams.ParamTypes[idx], expectedParamType, options); err != nil {
+					return err
+				}
+			}
+
+			if err := self.TypeCheck(gotVarParams.RemainingType, expectedVarParams.RemainingType, options); err != nil {
+				return err
+			}
 		default:
 			panic("A new function parameter type kind was introduced without updating this code")
 		}
